@@ -30,7 +30,7 @@ Junk(j) == "J" \o ToString(j)
 (***************************************************************************)
 (* Arithmetic on leaf counts                                               *)
 (***************************************************************************)
-MAXH == 12                       \* no model uses more than 2^12 leaves
+MAXH == 14                       \* no model uses more than 2^14 leaves
 
 Bit(x, h)       == (x \div (2^h)) % 2 = 1
 Heights(x)      == {h \in 0..MAXH : Bit(x, h)}
